@@ -2,6 +2,7 @@
 C17 — tower size vs stage: refuse when too small, add covers when larger.
 -/
 import Wheatley.Props.C06
+import Wheatley.Props.C07
 import Wheatley.Lemmas.StartRow
 import Wheatley.Model.Rhythm
 namespace Wheatley.C17
@@ -174,5 +175,224 @@ theorem rhythm_follows_tower_size (r : Reg K) (stage : Nat) :
   simp [Reg.initialiseLine, Reg.resetForTouch]
 
 end RhythmSize
+
+/-! ### A refused Look To rings nothing - however often it is called, for the whole run -/
+
+section Refused
+variable {K : Type} [Num K]
+
+/-- The gate of `_on_look_to`, as the code computes it. -/
+def gateB (b : Bot) : Bool := b.checkStartingRow && b.checkNumberOfBells (b.nextGen.getD b.gen)
+
+/-- Events that leave the tower's size and the queue alone: everything but global states, size changes and
+selections; strikes carry a state of the tower's size `N`.  Look To, Go and every other call are allowed. -/
+def KeepsTower (N : Nat) : Ev → Prop
+  | .msg (.bellRung st _) => st.length = N
+  | .msg (.globalState _) => False
+  | .msg (.sizeChange _) => False
+  | .msg (.rowGen _) => False
+  | _ => True
+
+/-- What the gate reads. -/
+def gateKey (b : Bot) : Nat × Nat × Nat := (b.openingRow.length, b.n, (b.nextGen.getD b.gen).stage)
+
+theorem gateB_of_key (b b' : Bot) (h : gateKey b' = gateKey b) : gateB b' = gateB b := by
+  unfold gateKey at h
+  simp only [Prod.mk.injEq] at h
+  unfold gateB Bot.checkStartingRow Bot.checkNumberOfBells
+  rw [h.1, h.2.1, h.2.2]
+
+theorem foldSettings_key : ∀ (kvs : List (String × SVal)) (b : Bot),
+    gateKey (foldSettings b kvs).1 = gateKey b ∧ (foldSettings b kvs).1.isRinging = b.isRinging := by
+  intro kvs
+  induction kvs with
+  | nil => intro b; exact ⟨rfl, rfl⟩
+  | cons kv rest ih =>
+    intro b
+    obtain ⟨k, v⟩ := kv
+    simp only [foldSettings]
+    obtain ⟨h1, h2⟩ := ih (b.onSetting k v).1
+    have hs : gateKey (b.onSetting k v).1 = gateKey b ∧ (b.onSetting k v).1.isRinging = b.isRinging := by
+      simp only [Bot.onSetting]
+      repeat' split
+      all_goals exact ⟨rfl, rfl⟩
+    exact ⟨h1.trans hs.1, h2.trans hs.2⟩
+
+/-- While the gate is shut, a handler of such a message leaves it shut and Wheatley silent - also the handler of
+Look To itself. -/
+theorem onMsg_refusing (b : Bot) (m : Msg) (N : Nat) (hk : KeepsTower N (.msg m)) (hr : b.isRinging = false)
+    (hn : b.n = N) (hg : gateB b = false) :
+    (b.onMsg m).1.isRinging = false ∧ (b.onMsg m).1.n = N ∧ gateB (b.onMsg m).1 = false := by
+  have fromKey : ∀ b' : Bot, gateKey b' = gateKey b → b'.isRinging = false →
+      b'.isRinging = false ∧ b'.n = N ∧ gateB b' = false := by
+    intro b' hkey hri
+    refine ⟨hri, ?_, (gateB_of_key b b' hkey).trans hg⟩
+    have := congrArg (fun t => t.2.1) hkey
+    simp only [gateKey] at this
+    rw [this]; exact hn
+  unfold Bot.onMsg
+  simp only []
+  cases m with
+  | bellRung st who =>
+    have hst : st.length = N := hk
+    have hkey : gateKey ({ b with tower := b.tower.apply (.bellRung st who) } : Bot) = gateKey b := by
+      simp only [gateKey, Bot.n, Tower.size, Tower.apply]
+      rw [hst]
+      have : b.tower.bellState.length = N := hn
+      rw [this]
+    simp only []
+    split
+    · exact fromKey _ hkey hr
+    · split <;> exact fromKey _ hkey hr
+  | globalState st => exact absurd hk (by simp [KeepsTower])
+  | sizeChange n => exact absurd hk (by simp [KeepsTower])
+  | rowGen g => exact absurd hk (by simp [KeepsTower])
+  | call c =>
+    have hq : gateKey ({ b with tower := b.tower.apply (.call c) } : Bot) = gateKey b := rfl
+    simp only [Bot.onCall]
+    split
+    · -- Look To itself: the gate is shut
+      unfold Bot.onLookTo
+      have : (({ b with tower := b.tower.apply (.call c) } : Bot).checkStartingRow &&
+          ({ b with tower := b.tower.apply (.call c) } : Bot).checkNumberOfBells
+            ((({ b with tower := b.tower.apply (.call c) } : Bot).nextGen).getD
+              ({ b with tower := b.tower.apply (.call c) } : Bot).gen)) = false := hg
+      simp only [this, Bool.false_eq_true, if_false]
+      exact fromKey _ hq hr
+    · split
+      · unfold Bot.onGo
+        split
+        · exact fromKey _ rfl hr
+        · exact fromKey _ hq hr
+      · repeat' split
+        all_goals first
+          | exact fromKey _ rfl hr
+          | exact fromKey _ (by simp only [gateKey]; cases b.nextGen <;> rfl) hr
+  | setting kvs =>
+    simp only []
+    split
+    · obtain ⟨h1, h2⟩ := foldSettings_key kvs ({ b with tower := b.tower.apply (.setting kvs) } : Bot)
+      exact fromKey _ h1 (h2.trans hr)
+    · exact fromKey _ rfl hr
+  | stopTouch =>
+    simp only []
+    split
+    · exact fromKey _ rfl rfl
+    · exact fromKey _ rfl hr
+  | userEntered _ _ => exact fromKey _ rfl hr
+  | userList _ => exact fromKey _ rfl hr
+  | assign bell user =>
+    refine fromKey _ ?_ hr
+    simp only [gateKey, Bot.n, Tower.size, Tower.apply]
+    split <;> rfl
+  | userLeft _ => exact fromKey _ rfl hr
+
+/-- Wheatley is idle, the tower has `N` bells and the gate of Look To is shut. -/
+def Refusing (N : Nat) (w : World K) : Prop := C07.Idle w ∧ w.bot.n = N ∧ gateB w.bot = false
+
+theorem deliver_refusing (wt : K → K) (N : Nat) (w : World K) (e : Ev) (hk : KeepsTower N e) (h : Refusing N w) :
+    Refusing N (World.deliver wt w e) := by
+  obtain ⟨⟨hr, hs, hpc⟩, hn, hg⟩ := h
+  obtain ⟨dp, _⟩ := deliver_never_rings wt w e
+  cases e with
+  | resume =>
+    have : World.deliver wt w .resume = w := by
+      unfold World.deliver
+      simp only [hs]
+    rw [this]
+    exact ⟨⟨hr, hs, hpc⟩, hn, hg⟩
+  | msg m =>
+    have hsus : w.lookToSuspends m = none := by
+      unfold World.lookToSuspends
+      cases m with
+      | call c =>
+        simp only []
+        split
+        · split
+          · have : (w.bot.checkStartingRow && w.bot.checkNumberOfBells (w.bot.nextGen.getD w.bot.gen)) = false := hg
+            simp only [this, Bool.false_eq_true, if_false]
+          · rfl
+        · rfl
+      | _ => rfl
+    have hd : World.deliver wt w (.msg m) = w.deliverMsg wt m := by
+      unfold World.deliver
+      simp only [hsus]
+    obtain ⟨m1, m2, m3⟩ := onMsg_refusing w.bot m N hk hr hn hg
+    have hb : (w.deliverMsg wt m).bot = (w.bot.onMsg m).1 := by
+      unfold World.deliverMsg
+      simp only []
+      split
+      · dsimp only; exact (foldl_applyOut_bot_crashed wt _ _ _).1
+      · exact (foldl_applyOut_bot_crashed wt _ _ _).1
+    have hsu : (w.deliverMsg wt m).suspended = none := by
+      unfold World.deliverMsg
+      simp only []
+      split
+      · dsimp only; rw [foldl_applyOut_suspended]; exact hs
+      · rw [foldl_applyOut_suspended]; exact hs
+    rw [hd]
+    refine ⟨⟨by rw [hb]; exact m1, hsu, by rw [← hd, dp]; exact hpc⟩, by rw [hb]; exact m2, by rw [hb]; exact m3⟩
+
+theorem sleep_go_refusing (wt : K → K) (limit : K) (N : Nat) :
+    ∀ (events : List (K × Ev)) (w : World K), (∀ ev ∈ events, KeepsTower N ev.2) → Refusing N w →
+      Refusing N (World.sleep.go wt limit w events).1 ∧
+      (∀ ev ∈ (World.sleep.go wt limit w events).2, KeepsTower N ev.2) := by
+  intro events
+  induction events with
+  | nil => intro w _ h; exact ⟨h, by intro ev hev; cases hev⟩
+  | cons ev rest ih =>
+    intro w hq h
+    obtain ⟨t, m⟩ := ev
+    unfold World.sleep.go
+    split
+    · apply ih _ (fun ev' h' => hq ev' (by simp [h']))
+      apply deliver_refusing wt N _ m (hq (t, m) (by simp))
+      split
+      · exact h
+      · exact h
+    · exact ⟨h, hq⟩
+
+theorem sleep_refusing (wt : K → K) (endTime : K) (N : Nat) (w : World K) (d : K) (events : List (K × Ev))
+    (hq : ∀ ev ∈ events, KeepsTower N ev.2) (h : Refusing N w) :
+    Refusing N (World.sleep wt endTime w d events).1 ∧
+    (∀ ev ∈ (World.sleep wt endTime w d events).2.1, KeepsTower N ev.2) := by
+  unfold World.sleep
+  simp only []
+  split
+  · exact sleep_go_refusing wt endTime N events w hq h
+  · obtain ⟨h1, h2⟩ := sleep_go_refusing wt (w.now + d) N events w hq h
+    exact ⟨⟨⟨h1.1.1, h1.1.2.1, h1.1.2.2⟩, h1.2.1, h1.2.2⟩, h2⟩
+
+/-- **Too small: nothing is rung, however often Look To is called**: Wheatley is idle and the gate of Look To is
+shut (the tower has fewer bells than the method or the start row needs, or more than the start row names).  As long
+as the tower's size and the queue stay as they are, any number of Look Tos, Gos and other calls, strikes,
+assignments and settings may arrive: for the whole run, of whatever length, Wheatley strikes nothing. -/
+theorem refused_look_to_rings_nothing (wt : K → K) (endTime : K) (N : Nat) :
+    ∀ (fuel : Nat) (w : World K) (events : List (K × Ev)), Refusing N w → (∀ ev ∈ events, KeepsTower N ev.2) →
+      ringsOf (World.run wt endTime fuel w events).1.obs = ringsOf w.obs := by
+  intro fuel
+  induction fuel with
+  | zero => intro w events _ _; rfl
+  | succ fuel ih =>
+    intro w events h hq
+    obtain ⟨hi, ho⟩ := C07.mainStep_idle wt w h.1
+    have hb := C07.mainStep_idle_bot wt w h.1
+    have hR : Refusing N (w.mainStep wt).1 := ⟨hi, by rw [hb]; exact h.2.1, by rw [hb]; exact h.2.2⟩
+    unfold World.run
+    split
+    · rename_i w1 heq; rw [heq] at ho; exact congrArg ringsOf ho
+    · rename_i w1 heq
+      rw [heq] at hR ho
+      rw [ih w1 events hR hq]; exact congrArg ringsOf ho
+    · rename_i w1 d heq
+      rw [heq] at hR ho
+      obtain ⟨sp, sr⟩ := sleep_never_rings wt endTime w1 d events
+      obtain ⟨si, sq⟩ := sleep_refusing wt endTime N w1 d events hq hR
+      simp only []
+      split
+      · rw [sr]; exact congrArg ringsOf ho
+      · rw [ih _ _ si sq, sr]; exact congrArg ringsOf ho
+
+end Refused
 
 end Wheatley.C17
